@@ -13,6 +13,7 @@ C = {
  "C15": ("TLC checks the word-level Montgomery/CIOS, add/sub/neg/double, batch-inversion and binary-inversion algorithms against integer arithmetic mod m for every operand pair of a scaled machine; the same Field module at the real modulus validates every recorded call of the real code (three code paths, all aliasings) on the limb-class product", "4 C15"),
  "C16": ("TLC checks the decoders' specification (reduce / canonical accept iff value < r / buffer frame) on every short byte string of a one-byte world, and validates every recorded encode/decode of the real code, including the caller's buffer before/after and a second decode of the same buffer", "4 C16"),
  "C17": ("TLC checks the table-driven square-root algorithm, Tonelli-Shanks and point recovery against their definitions for EVERY element of F_193 and F_257 (same block structure as the code); at real size every recorded SqrtPrecomp/GetPointFromX call on block-value sweeps of the dyadic discrete log, special and random inputs is judged by Euler's criterion and squaring, and the exported tables are compared with their definitions (lookup keys pairwise distinct)", "4 C17"),
+ "C18": ("TLC checks for EVERY polynomial over F_17 on a 4-point domain, every index and every outside point that the table-driven division and barycentric routines as written equal the textbook quotient / Lagrange coefficients and their table-free characterisations and coefficient-form evaluation; at real size every recorded quotient is judged by q_i(i-k)=f_i-f_k and the vanishing leading coefficient with A' from its defining product, coefficients by the Lagrange formula and the Vandermonde characterisation, inner products by Newton-form evaluation, all 1022 table entries by definition", "4 C18"),
  "C19": ("TLC checks every aliasing pattern of pointer lists (length 0..4) over a heap of representation-palette cells: batch = single position-wise, normalisation value-preserving and all-or-nothing, de-duplication load-bearing; at real size every batch call inside TLC-generated histories is judged position-wise against the specification", "4 C19"),
  "C20": ("TLC checks the code's range formula against the split relation on the complete (n, m) grid and all interleavings of a PlusCal model of Execute (join before return); the real Execute is run on the same complete grid and every call's observed ranges and completion count are judged by the relation", "4 C20"),
 }
